@@ -57,3 +57,5 @@ def f6_grammar():
     ], ["n", "+", ";"])
     gen._assign_pids(g)
     return g
+
+F23_TEXT = 'grammar; extern { enum Tok { "a" => Tok::A(<#S#>) } } pub S: () = "a" => ();\n'
